@@ -901,6 +901,8 @@ func (g *Gen) terraformZoo(b *BodySpec) {
 				{Name: "tags", Opt: true, Cons: &ConsSpec{K: "any", Type: "map(string)"}},
 				{Name: "size", Opt: true, Cons: &ConsSpec{K: "any", Type: "number"}},
 				{Name: "secret_wo", Opt: true, WriteOnly: true, Cons: &ConsSpec{K: "any", Type: "string"}},
+				{Name: "token_wo", Opt: true, WriteOnly: true, Cons: &ConsSpec{K: "any", Type: "string"}},
+				{Name: "key_wo", Opt: true, WriteOnly: true, Cons: &ConsSpec{K: "any", Type: "number"}},
 			},
 			Blocks: []*BlockSpec{
 				{Type: "rule", BType: "list", Body: &BodySpec{Ext: ruleExt, Attrs: []*AttrSpec{{Name: "port", Opt: true, Cons: &ConsSpec{K: "any", Type: "number"}}, {Name: "cidr", Opt: true, Cons: &ConsSpec{K: "any", Type: "string"}}}}},
